@@ -1,14 +1,31 @@
 (* C07 - multi-argument queries are answered as disjunctions.
    Statements only; proofs are [exact].
-   PROVED so far (every valid SAT oracle, every compact component of any size, every encoder,
-   every argument list with repetitions): CompleteSemanticsSolver's query (with and without
-   certificate: [close] = false / true) answers the disjunction under CO, and
-   StableSemanticsSolver's per-component step answers the disjunction credulously and
-   skeptically.  These are the two solvers the defects D1 and D2 were found in (now repaired).
-   NOT YET PROVED in Coq (tied by trace replay + brute-force oracle on every run): the merge of
-   the components of the listed arguments, and the PR / SST / STG / ID loops over lists. *)
+   PROVED (every valid SAT oracle, every threshold >= 1, every admissible encoder, every good view
+   of a framework of any size, every fuel, both certificate flags):
+     - C07_lists: for EVERY acceptance entry point of [run_query] (all solver types) and EVERY
+       list of arguments of F (empty, with repetitions, spread over several connected
+       components: the components of the listed arguments are merged), the status of a completed
+       run is, for a credulous query, true iff SOME listed argument is credulously accepted on
+       its own, and for a skeptical query, true iff EVERY extension contains SOME listed argument
+       (not: some listed argument is skeptically accepted).  The run never panics.
+     - C07_*_list_*_component_partial (kept): the per-component forms for CO and ST, the two
+       solvers the defects D1 and D2 were found in (now repaired).
+   NOT proved in Coq (by design): that the Rust code behaves like Model.Solvers (the tie: trace
+   replay on every run).  Termination and fuel: see C18.
+   Vocabulary of the whole-framework theorems (Proofs/TopBase.v, TopMax.v, SolverTop.v):
+     view_good g F   the view g (iteration orders of an AAFramework) presents the framework F;
+                     instances: view_of_af of any compact framework, view_of_fw of any store
+                     reachable from new_with_labels by any update history (C01_good_view_compact, C01_good_view_store);
+     supported s q   the trait implementation exists (all but CO-SE, CO-DS, PR-DC, for which the
+                     library delegates to another solver type and the model has no entry point);
+     enc_ok s e      the encoder may be used with the solver type (CO, SST: complete-based; STG:
+                     conflict-free based; PR, ID: complete- or admissible-based; GR, ST: any);
+     al_ok s q F al  nothing for SE queries and for GR / ST; otherwise the listed ids are arguments
+                     of F (the list may be empty and may contain repetitions).
+*)
 From Crusta Require Import Spec.AF Sat.Cnf Sat.Prog Model.Encoders Model.Graph Model.Solvers.
 From Crusta Require Import Proofs.EncSpec Proofs.SolverBasics Proofs.SolverThms.
+From Crusta Require Import Proofs.TopBase Proofs.TopMax Proofs.SolverTop.
 Open Scope prog_scope.
 
 Theorem C07_complete_list_component_partial : forall oracle thr, 1 <= thr -> valid_oracle oracle ->
@@ -47,6 +64,21 @@ Theorem C07_stable_list_skep_component_partial : forall oracle thr, 1 <= thr -> 
               end).
 Proof. exact SolverThms.stable_component_skep. Qed.
 
+Theorem C07_lists : forall oracle thr g F,
+  valid_oracle oracle -> 1 <= thr -> view_good g F ->
+  forall s q e al fuel cert st0,
+  q <> QSE -> supported s q -> enc_ok s e -> al_ok s q F al ->
+  match run_query oracle thr fuel s q cert e g al st0 with
+  | Done (OAcc b _) _ =>
+      b = true <-> if qpol q then exists a, In a al /\ cred s F [a]
+                   else forall S, ext s F S -> exists a, In a al /\ In a S
+  | Done (OExt _) _ => False
+  | Panic _ => False
+  | _ => True
+  end.
+Proof. exact SolverTop.top_lists. Qed.
+
 Print Assumptions C07_complete_list_component_partial.
 Print Assumptions C07_stable_list_cred_component_partial.
 Print Assumptions C07_stable_list_skep_component_partial.
+Print Assumptions C07_lists.
